@@ -700,7 +700,7 @@ pub fn run(ctx: &Ctx) -> Outcome {
     if let Some(p) = &ctx.replay {
         return replay(p, out);
     }
-    let depth = if ctx.quick() { 3 } else { 4 };
+    let depth = if ctx.quick() { 4 } else { 6 };
     let deadline = Instant::now() + Duration::from_secs_f64(ctx.budget_s);
     let pend = std::sync::atomic::AtomicUsize::new(0);
     let flush = std::sync::atomic::AtomicUsize::new(0);
